@@ -50,7 +50,10 @@ def mj_rows(mjm, mjd):
   out = {"nefc": n, "ne": int(mjd.ne), "nf": int(mjd.nf), "nl": int(mjd.nl), "J": mj_dense_J(mjm, mjd)}
   for k in ("type", "id", "pos", "margin", "D", "vel", "aref", "frictionloss", "force", "state"):
     out[k] = np.array(getattr(mjd, "efc_" + k))[:n].copy()
-  out["imp"] = np.array(mjd.efc_KBIP).reshape(-1, 4)[:n, 2].copy()
+  kbip = np.array(mjd.efc_KBIP).reshape(-1, 4)[:n]
+  out["imp"] = kbip[:, 2].copy()
+  # magnitude of the terms that aref = -K*imp*(pos-margin) - B*vel sums (its float32 round-off scales with them)
+  out["aref_terms"] = np.abs(kbip[:, 0] * kbip[:, 2] * (out["pos"] - out["margin"])) + np.abs(kbip[:, 1] * out["vel"])
   return out
 
 
@@ -618,3 +621,16 @@ def only_weldparent_D_differs(mjm, P, Pj):
       return False
     hit = True
   return hit
+
+
+def capacity_ok(d, w, rows=None, ovf=None):
+  """False if world w lost rows/contacts to a capacity limit (njmax, njmax_nnz, naconmax, collision buffers): such
+  worlds are C16's subject and are not judged by the constraint monitors."""
+  ovf = mw.npy(d.overflow) if ovf is None else ovf
+  if int(ovf[w]) & (OVF_NEFC | OVF_NNZ | OVF_CONTACT):
+    return False
+  if int(mw.npy(d.nefc)[w]) > d.njmax or int(mw.npy(d.nacon)[0]) > d.naconmax:
+    return False
+  if rows is not None and not rows.get("J_ok", True):
+    return False
+  return True
